@@ -4,7 +4,7 @@ from checks import common_loops as cl, common_core as cc
 
 PID = "C15"
 RULE = ("One event loop, max_size >= N. (0) N in {8,16,32} tasks each in a hooked timed wait (usleep/nanosleep, poll, select, or a mix) of d in {100,200} ms plus one computing sibling that yields in a loop: all must finish within max(2d, d+300 ms + noise) although serial execution needs N*d, "
-        "the sibling's progress counter must advance meanwhile, the median call must not come back more than 40 ms (+noise) late, and the loop thread must not sit still (> 8 ms between two steps of the always-runnable sibling) for N/2 or more times - healthy runs show 0 ms lateness and 0 stalls, so wake-ups that are serialised (each returning call holding the loop thread) stand out although the total stays below the coarse bound; these two are only judged while the in-process load monitor saw no bad sample; "
+        "the sibling's progress counter must advance meanwhile, the median call must not come back more than 40 ms (+noise) late, and the loop thread must not sit still (> 8 ms between two steps of the always-runnable sibling) for N/2 or more times - healthy runs show 0 ms lateness and 0 stalls, so wake-ups that are serialised (each returning call holding the loop thread) stand out although the total stays below the coarse bound; these are only judged while the in-process load monitor saw no bad sample; one case per 18 is a burst of 600 tasks x 500 ms (more than the local queue holds): the last task must enter its call within d/2 of the first one, i.e. queued tasks must not wait for somebody else's blocked worker; "
         "(1) the same with tasks parked in a hooked socket call that runs into the socket's own timeout d: recv on an empty socket, send on a full socket, accept on an idle listener; (2) a 50 ms task submitted while the only live worker is parked in a 1.5 s hooked sleep must finish in < 650 ms. "
         "The bound is a ratio/absolute slack far from both healthy (about d) and faulty (N*d or the sibling's remaining sleep) behaviour. Non-trivial = N*d > 2*bound (or scenario 2); distinct = (scenario, N, d). Calls go through the core entry points the interposed libc symbols forward to.")
 
